@@ -624,6 +624,8 @@ def run_forked(child_fn, wall=20.0):
     if pid == 0:
         code = 0
         try:
+            import gc
+            gc.disable()
             os.close(r)
             res = ChildResult(w)
             try:
